@@ -509,6 +509,8 @@ def run(ctx):
     D.loops_visit_all(ctx, "R-C03.15", only=("batch::WriteBatch::commit", "journal::writer::Writer::write_batch", "db::Database::recover", "recovery::recover_sealed_memtables", "tx::write_tx::BaseTransaction::commit"))
 
     # ---- borrowed obligations (mechanisms owned by other properties that this property's verdict also rests on)
+    # a batch is applied under the journal lock: a rotation cannot seal a keyspace's memtable between two of its items
+    ctx.borrow("C14", ["R-C14.1", "R-C14.2"], "R-C03.17")
     # a batch whose keyspaces are flushed at different times is atomic across a crash only if its journal is kept until ALL of them have persisted it
     ctx.borrow("C10", ["R-C10.1"], "R-C03.11")
     # items of a batch keep their journal order on replay
